@@ -23,6 +23,7 @@ import (
 	"path/filepath"
 	"runtime/pprof"
 	"sort"
+	"strconv"
 	"strings"
 	"sync"
 
@@ -151,7 +152,10 @@ type tobj struct {
 	pfx     uint64 // payload bytes that fit the first buffered read of a plain file
 	stored  int    // stored (possibly compressed) size
 	sweep   *sweepCase // set for members of boundary-sweep files
+	size    *sizeCase  // set for objects of the header-buffer size sweep
 }
+
+func (t *tobj) swept() bool { return t.sweep != nil || t.size != nil }
 
 // shape is the storage shape class used in fingerprints: raw/zstd and how the stored and decoded sizes
 // relate to the 20 KiB first read and the 40 KiB caller buffer.
@@ -170,6 +174,8 @@ func (t *tobj) shape() string {
 	if t.stored == len(t.enc) {
 		lay := "plain-file"
 		switch {
+		case t.size != nil:
+			lay = "size-sweep:" + t.size.Family + ":" + t.size.Layout
 		case t.sweep != nil:
 			lay = "boundary-sweep:" + t.sweep.Kind + ":" + t.sweep.class()
 		case strings.Contains(t.Format, "combined-single"):
@@ -181,11 +187,20 @@ func (t *tobj) shape() string {
 		}
 		return "raw:object" + sz(len(t.enc)) + "," + lay
 	}
+	if t.size != nil {
+		return "zstd:stored" + sz(t.stored) + ",object" + sz(len(t.enc)) + ",size-sweep:" + t.size.Family + ":" + t.size.Layout
+	}
 	return "zstd:stored" + sz(t.stored) + ",object" + sz(len(t.enc))
 }
 
 func mkPayload(pattern string, n int) []byte {
 	p := make([]byte, n)
+	if r, ok := strings.CutPrefix(pattern, "mixed:"); ok { // incompressible head of r bytes, compressible tail
+		k, _ := strconv.Atoi(r)
+		q := mkPayload("periodic", n)
+		copy(q[:min(k, n)], mkPayload("random", min(k, n)))
+		return q
+	}
 	if pattern == "periodic" {
 		for i := range p {
 			p[i] = byte(i%251) ^ 0x5a
@@ -295,6 +310,7 @@ type tcase struct {
 	First   uint64 `json:"first"`
 	Second  uint64 `json:"second"`
 	Sweep   *sweepCase `json:"sweep,omitempty"`
+	Size    *sizeCase  `json:"size,omitempty"`
 }
 
 var (
@@ -401,7 +417,7 @@ func (c *checker) viol(api, rule string, r common.PayloadRange, e expect, detail
 	fpSet[fp]++
 	fpMu.Unlock()
 	run.Violation(fp, fmt.Sprintf("%s.%s on %s object, payload %d bytes (%s), range %s(%d,%d): %s", c.l.Name(), api, c.t.Format, c.t.L, c.t.Pattern, modeNames[r.Mode], r.First, r.Second, detail),
-		tcase{c.l.Name(), c.t.Format, c.t.L, c.t.Pattern, c.k, uint8(r.Mode), r.First, r.Second, c.t.sweep})
+		tcase{c.l.Name(), c.t.Format, c.t.L, c.t.Pattern, c.k, uint8(r.Mode), r.First, r.Second, c.t.sweep, c.t.size})
 }
 
 // judge compares one API outcome with the reference; returns the outcome kind for consistency checks.
@@ -510,7 +526,7 @@ func (c *checker) one(r common.PayloadRange) {
 		if withI {
 			f = func(h []byte) error { calls++; seen = bytes.Clone(h); return nil }
 		}
-		if t.sweep != nil {
+		if t.swept() {
 			poison(c.buf)
 		}
 		p := guard(func() {
@@ -566,7 +582,7 @@ func (c *checker) one(r common.PayloadRange) {
 			if withI {
 				f = func(h []byte) error { calls++; seen = bytes.Clone(h); return nil }
 			}
-			if t.sweep != nil {
+			if t.swept() {
 				poison(c.buf)
 			}
 			p := guard(func() {
@@ -692,7 +708,7 @@ func resolvePart(maxL uint64) (n int) {
 			}
 			off, ln, err := r.Resolve(L)
 			oor := errors.Is(err, apistatus.ErrObjectOutOfRange)
-			tc := tcase{"resolve", "", i, "", 0, uint8(r.Mode), r.First, r.Second, nil}
+			tc := tcase{"resolve", "", i, "", 0, uint8(r.Mode), r.First, r.Second, nil, nil}
 			switch {
 			case err != nil && !oor:
 				run.Violation("resolve:unexpected-error:"+modeNames[r.Mode]+":"+e.Class, fmt.Sprintf("len %d %s(%d,%d): %v", L, modeNames[r.Mode], r.First, r.Second, err), tc)
@@ -960,6 +976,17 @@ func main() {
 		var c tcase
 		r.LoadReplay(&c)
 		specs = []spec{{c.L, c.Pattern, c.L > 64, true}}
+		if c.Size != nil {
+			buildSizeSweep(w, []sizeCase{*c.Size})
+			for _, o := range w.objs["fstree/size-sweep"] {
+				if o.size.Layout == c.Size.Layout {
+					ck := &checker{l: w.layers["fstree/size-sweep"], t: o, k: c.K, buf: make([]byte, 2*hbuf)}
+					ck.one(common.PayloadRange{First: c.First, Second: c.Second, Mode: common.PayloadRangeMode(c.Mode)})
+				}
+			}
+			cleanup()
+			r.Finish()
+		}
 		if c.Sweep != nil {
 			buildSweep(w, []sweepCase{*c.Sweep})
 			for _, o := range w.objs["fstree/boundary-sweep"] {
@@ -990,6 +1017,7 @@ func main() {
 	sweeps := sweepCases()
 	buildSweep(w, sweeps)
 	r.Set("boundary_sweep_files", len(sweeps))
+	r.Set("size_sweep", buildSizeSweep(w, sizeCases(r.Quick())))
 	maxResolve := uint64(64)
 	if r.Thorough() {
 		maxResolve = 160
@@ -1030,7 +1058,7 @@ func main() {
 		large := j.o.L > 64
 		ck := &checker{l: w.layers[j.ln], t: j.o, k: j.k, buf: make([]byte, 2*hbuf)}
 		rs := ranges(uint64(j.o.L), large, j.o.pfx)
-		if j.o.sweep != nil {
+		if j.o.swept() {
 			rs, large = sweepRanges(uint64(j.o.L)), false
 		}
 		for _, rg := range rs {
@@ -1056,6 +1084,9 @@ func main() {
 		pf := j.o.Format
 		if j.o.sweep != nil {
 			pf = "boundary-sweep/" + j.o.sweep.Kind
+		}
+		if j.o.size != nil {
+			pf = "size-sweep/" + j.o.size.Family + "/" + j.o.size.Layout
 		}
 		perLayer[w.layers[j.ln].Name()+"/"+pf] += n
 		plMu.Unlock()
@@ -1085,7 +1116,7 @@ func main() {
 	r.Sample(map[string]any{"payload_len": 10, "range": "bounds(2,20)", "reference": refRange(10, common.NewPayloadRangeBounds(2, 20))})
 	r.Sample(map[string]any{"payload_len": 10, "range": "offset-length(8,3)", "reference": refRange(10, common.NewPayloadRange(8, 3))})
 	r.Sample(map[string]any{"payload_len": 0, "range": "suffix(3)", "reference": refRange(0, common.NewPayloadRangeSuffix(3))})
-	r.Rule("payload lengths 0..64: every range mode with every (first, second) in 0..len+2 plus {2^63-1, 2^63, 2^64-len, 2^64-1}; large payloads (payload or file length within +-2 of 20480/40960, and 100000; random and compressible contents): values within +-2 of {0, buffered prefix, 20480, 40960, len}, len/2 and the huge values, read twice (ReadAll and 4099-byte reads); every object in every file format and layer listed in ranges_per_layer_format; each evaluation = one (object, range) with all APIs. Non-trivial = satisfiable range whose slice is non-empty and shorter than the payload. Boundary sweep: combined files of 2-3 members whose leading member sizes are swept so that the next member prefix starts at every file offset in [E-80, E+2] for every buffer end E of the member-prefix scan (E = B, 2B with B = NonPayloadFieldsBufferLength; after a straddling prefix; after a seek), member lengths with non-zero low bytes, poisoned caller buffers; every member read with 15 boundary-directed ranges (whole object, full, first/last byte, halves, clamped, unsatisfiable) through all FSTree range APIs")
+	r.Rule("payload lengths 0..64: every range mode with every (first, second) in 0..len+2 plus {2^63-1, 2^63, 2^64-len, 2^64-1}; large payloads (payload or file length within +-2 of 20480/40960, and 100000; random and compressible contents): values within +-2 of {0, buffered prefix, 20480, 40960, len}, len/2 and the huge values, read twice (ReadAll and 4099-byte reads); every object in every file format and layer listed in ranges_per_layer_format; each evaluation = one (object, range) with all APIs. Non-trivial = satisfiable range whose slice is non-empty and shorter than the payload. Boundary sweep: combined files of 2-3 members whose leading member sizes are swept so that the next member prefix starts at every file offset in [E-80, E+2] for every buffer end E of the member-prefix scan (E = B, 2B with B = NonPayloadFieldsBufferLength; after a straddling prefix; after a seek), member lengths with non-zero low bytes, poisoned caller buffers; every member read with 15 boundary-directed ranges (whole object, full, first/last byte, halves, clamped, unsatisfiable) through all FSTree range APIs. Header-buffer size sweep: objects of every plain size in windows around B and 2B (quick +-20 / +-6, thorough +-64) with incompressible, compressible and mixed payloads, raw and zstd-compressed (plain and stored size independently below, at, above B), as single file / first member / last member of a combined file, each read with the same 15 ranges through all FSTree range APIs")
 	r.Assume("offset-length ranges with zero length at a non-zero offset are not specified by the doc comments (the engine's GetRange comment and PayloadRange.Resolve contradict each other): only agreement between all APIs, layers and formats is demanded for them",
 		"objects are valid (header payload length = actual payload length); stored compressed data is a single zstd frame as written by older node versions")
 	r.Exhaustive(!incomplete)
